@@ -2,12 +2,13 @@
 """usage: seedtest.py <seed dir under /verif/seeded> <check id> [<check id> ...]
 applies seeded/<dir>/patch.diff to /repo, runs the quick checks, restores /repo, records the outcome in seeded/<dir>/meta.json"""
 import json, os, subprocess, sys, time
+REPO = os.environ.get("RP_SRC", "/repo")
 ROOT = os.path.dirname(os.path.dirname(os.path.abspath(__file__)))
 d = os.path.join(ROOT, "seeded", sys.argv[1])
 checks = sys.argv[2:]
 patch = os.path.join(d, "patch.diff")
-assert subprocess.run(["git", "-C", "/repo", "status", "--porcelain", "--untracked-files=no"], stdout=subprocess.PIPE, text=True).stdout.strip() == "", "/repo not clean"
-subprocess.run(["git", "-C", "/repo", "apply", patch], check=True)
+assert subprocess.run(["git", "-C", REPO, "status", "--porcelain", "--untracked-files=no"], stdout=subprocess.PIPE, text=True).stdout.strip() == "", "/repo not clean"
+subprocess.run(["git", "-C", REPO, "apply", patch], check=True)
 res = {}
 try:
     for c in checks:
@@ -17,7 +18,7 @@ try:
         res[c] = {"exit": p.returncode, "violations": len(viol), "first": viol[0][:400] if viol else "", "wall_s": round(time.time() - t0)}
         print(c, res[c])
 finally:
-    subprocess.run(["git", "-C", "/repo", "checkout", "--", "."], check=True)
+    subprocess.run(["git", "-C", REPO, "checkout", "--", "."], check=True)
 mp = os.path.join(d, "meta.json")
 m = json.load(open(mp)) if os.path.exists(mp) else {}
 m.setdefault("checks_run_against_it", {}).update(res)
